@@ -177,6 +177,13 @@ class DiffXReader(object):
                         % section_id,
                         linenum=linenum)
 
+                if not isinstance(length, int) or length < 0:
+                    raise DiffXParseError(
+                        'Expected the length option for section "%s" to be '
+                        'a non-negative integer'
+                        % section_id,
+                        linenum=linenum)
+
                 if section_id in PREAMBLE_SECTIONS:
                     # This is a preamble section.
                     #
@@ -463,7 +470,16 @@ class DiffXReader(object):
                 validate.
         """
         fp = self._fp
-        content = fp.read(length)
+
+        try:
+            content = fp.read(length)
+        except OverflowError:
+            # The length is larger than anything the stream could hold.
+            content = fp.read()
+
+        if not content:
+            raise DiffXParseError('Expected content after the header',
+                                  linenum=self._linenum)
 
         # First, determine the line endings that we're going to be working
         # with.
